@@ -125,7 +125,11 @@ pub fn run(args: &Args) -> Report {
             for (name, streams) in scripts(thorough, a.0.max(b.0)) {
                 let cfg = XferCfg { a, b, cap, streams, stream_buffer: 4, one_byte_frames: false, dgram_pingpong: 0, dgram_buffer: 4, drop_mux_when_writers_done: None, horizon: 4000 };
                 let label = format!("{name} | {}", cfg.describe());
-                cases.push(Case { try_unbounded: false, max_k: u32::MAX, label, exec: Box::new(move |r| xfer::exec(&cfg, &or, r)) });
+                // with an unbounded link the steps of the two endpoints commute: the complete tree modulo that
+                // commutation is attempted after the bounded levels (sleep sets), for the one-stream scripts
+                let por = false; // too large even modulo commutation (stateless search); see the tiny cases below
+                let _ = name;
+                cases.push(Case { try_unbounded: por, max_k: u32::MAX, label, exec: Box::new(move |r| xfer::exec(&cfg, &or, r)) });
             }
         }
     }
@@ -177,5 +181,29 @@ pub fn run(args: &Args) -> Report {
         "tokio channels and parking_lot locks are trusted".into(),
     ];
     run_cases(args, &mut rep, cases, &plan);
+    if thorough && args.replay.is_none() && rep.machinery_error.is_none() {
+        por_selfcheck(args, &mut rep, &or);
+    }
     rep
+}
+
+/// Cross-check of the sleep-set reduction: on a micro case the UNREDUCED interleaving tree (tens of millions of
+/// executions) and the reduced one must visit exactly the same set of states.
+fn por_selfcheck(args: &Args, rep: &mut Report, or: &Oracles) {
+    use crate::explore::{Budget, Limits, explore, explore_por};
+    let streams = vec![StreamSpec { tag: 1, opener: 0, opener_plan: EndPlan::Seq(vec![Op::W(1), Op::Shutdown]), acceptor_plan: EndPlan::Seq(vec![Op::ReadToEof(2)]) }];
+    let cfg = XferCfg { a: (1, 1), b: (1, 1), cap: 0, streams, stream_buffer: 4, one_byte_frames: false, dgram_pingpong: 0, dgram_buffer: 4, drop_mux_when_writers_done: None, horizon: 4000 };
+    let lim = Limits { max_execs: u64::MAX, deadline: std::time::Instant::now() + Duration::from_secs(600), threads: args.threads.max(1), stop_after_violation_kinds: 0 };
+    let (red, pruned) = explore_por(lim, "por-selfcheck", || xfer::exec(&cfg, or, false));
+    let full = explore(Budget::new(Budget::UNBOUNDED, 0, 0), lim, "por-selfcheck-full", || xfer::exec(&cfg, or, false));
+    let same = red.states == full.states;
+    rep.extra.insert(
+        "sleep_set_selfcheck".into(),
+        serde_json::json!({"case": cfg.describe(), "unreduced_executions": full.executions, "reduced_executions": red.executions, "pruned_paths": pruned,
+            "states_unreduced": full.states.len(), "states_reduced": red.states.len(), "state_sets_equal": same, "completed": full.capped.is_none() && red.capped.is_none()}),
+    );
+    rep.evaluations += full.executions + red.executions;
+    if full.capped.is_none() && red.capped.is_none() && !same {
+        rep.machinery_error = Some(format!("sleep-set self-check failed: reduced search visits {} states, unreduced {} (sets differ)", red.states.len(), full.states.len()));
+    }
 }
